@@ -146,7 +146,8 @@ func Child(name string, arg interface{}, out interface{}, timeout time.Duration)
 		return nil, err
 	}
 	cmd := exec.Command(os.Args[0])
-	cmd.Env = append(os.Environ(), "VERIF_GCHILD="+name, "VERIF_GCHILD_ARG="+dir+"/arg.json", "VERIF_GCHILD_OUT="+dir+"/out.json")
+	// the child's nodes live under the child's scratch directory: a child that goes down (a verdict) leaves nothing behind
+	cmd.Env = append(os.Environ(), "VERIF_GCHILD="+name, "VERIF_GCHILD_ARG="+dir+"/arg.json", "VERIF_GCHILD_OUT="+dir+"/out.json", "VERIF_NODE_BASE="+dir)
 	var stderr, stdout bytes.Buffer
 	cmd.Stderr = &stderr
 	cmd.Stdout = &stdout
